@@ -6,7 +6,7 @@
    Both bounds are proved for all inputs / all periods 1..4096, all contents and all lengths.
    LZ13 header: 8 bytes (wrapper + LZ11 header) for a non-empty input below 16 MiB; 12 bytes when the
    extended size form is written (empty input - the repair of F12 - or 16 MiB and more). *)
-From Coq Require Import List NArith Bool.
+From Coq Require Import List Arith NArith Bool Lia.
 From Mila Require Import Lib.Bytes Lib.Machine Model.LZCore Model.LZ10 Model.LZ11 Proofs.LZSizeProofs.
 Import ListNotations.
 
@@ -36,13 +36,15 @@ Theorem C10_longest_match : forall L x d, 3 <= L -> periodic d x -> 2 <= d <= 40
   fst (occ x pos (Nat.min (length x - pos) L) (pos - Nat.min pos WINDOW) (Nat.min pos WINDOW)) = Nat.min (length x - pos) L.
 Proof. exact occ_periodic. Qed.
 
-(* non-vacuity: 60 bytes of period 3 take 14 bytes in LZ10 (bound 4+5+2*5+2 = 21) and 16 in LZ13 (bound 8+5+4*2+1 = 22) *)
+(* non-vacuity: 60 bytes of period 3 take 16 bytes in LZ10 (bound 4+5+2*5+2 = 21) and 15 in LZ13 (bound 8+5+4*2+1 = 22) *)
 Example C10_example :
   let x := concat (repeat [1%N; 2%N; 3%N] 20) in
-  periodic 3 x /\ length (compress10 x) = 14 /\
-  exists c, compress13 Checked x = Ok c /\ length c = 16.
+  periodic 3 x /\ length (compress10 x) = 16 /\
+  exists c, compress13 Checked x = Ok c /\ length c = 15.
 Proof.
-  split; [|split; [vm_compute; reflexivity | eexists; split; vm_compute; reflexivity]].
-  intros i Hi. vm_compute in Hi. do 57 (destruct i as [|i]; [reflexivity|]). exfalso. vm_compute in Hi. 
-  repeat (apply Le.le_S_n in Hi). inversion Hi.
+  split; [|split; [vm_compute; reflexivity | eexists; split; [vm_compute; reflexivity | vm_compute; reflexivity]]].
+  intros i Hi. cbv zeta in Hi.
+  assert (Hl : length (concat (repeat [1%N; 2%N; 3%N] 20)) = 60) by reflexivity. rewrite Hl in Hi.
+  assert (Hi' : i < 57) by lia. clear Hi Hl.
+  do 57 (destruct i as [|i]; [reflexivity|apply Nat.succ_lt_mono in Hi']). inversion Hi'.
 Qed.
